@@ -310,12 +310,9 @@ theorem startSelf_agree (N : Nat) (E1 E2 : Engine) (d : Defects) (cx : Ctx) (t :
     unfold ssGuard
     split
     · dsimp only
-      have hc : nc = true → (if (!sf0.isOverride) = true then setOverride (ev w (.warnOverride t)) t sf0 cx.runid
-          else sf0).csum = none := by
+      have hc : nc = true → (setOverride (ev w (.warnOverride t)) t sf0 cx.runid).csum = none := by
         intro hn
-        split
-        · rw [setOverride_csum]; exact hsf0 hn
-        · exact hsf0 hn
+        rw [setOverride_csum]; exact hsf0 hn
       exact ⟨(hw.ev _).setRec t _ hc, hc⟩
     · exact ⟨hw, hsf0⟩
   generalize ssGuard cx t sf0 w = g at hg
